@@ -154,6 +154,7 @@ type violRec struct {
 	what        string
 	hist        []op
 	count       int64
+	desync      int64 // occurrences after which real and reference state disagree
 }
 
 // runCase executes hist on a fresh world and reference. Only the last
@@ -290,6 +291,9 @@ func bfs(s *suite, budget, weight int) {
 									v.parent, v.idx, v.what, v.hist = int32(pi), int32(oi), f.what, append([]op(nil), hist...)
 								}
 								v.count++
+								if f.desync {
+									v.desync++
+								}
 							}
 							if isBackoffOp(o.Code) && exp.budget > 0 && exp.slept && !kinds[o.Kind].excluded {
 								// measured overshoot over the budget, in ms
@@ -345,11 +349,11 @@ func bfs(s *suite, budget, weight int) {
 					viols[k] = v
 					continue
 				}
-				cnt := cur.count + v.count
+				cnt, ds := cur.count+v.count, cur.desync+v.desync
 				if v.parent < cur.parent || (v.parent == cur.parent && v.idx < cur.idx) {
 					viols[k] = v
 				}
-				viols[k].count = cnt
+				viols[k].count, viols[k].desync = cnt, ds
 			}
 			nTransitions.Add(results[wi].trans)
 			nOpsExecuted.Add(results[wi].opsExec)
@@ -372,16 +376,18 @@ func bfs(s *suite, budget, weight int) {
 		var violEdges int64
 		for _, k := range vkeys {
 			v := viols[k]
-			violEdges += v.count
+			violEdges += v.desync
 			what := fmt.Sprintf("[%s budget=%d weight=%d depth=%d] %s | history: %s", s.name, budget, weight, depth, v.what, histText(v.hist))
 			art := replayOf(s, budget, weight, v.hist)
 			for i := int64(0); i < min(v.count, 1000); i++ {
 				run.Violation(k, what, art)
 			}
 		}
-		if violEdges > 200000 {
+		// A tree on which real and reference state disagree all over the place (a mutation) is not worth
+		// exploring to the end; violations that leave the state intact never stop the search.
+		if violEdges > 200000 && !lastLevel {
 			stopped = true
-			run.Incomplete(fmt.Sprintf("suite %s stopped at depth %d after %d violating transitions", s.name, depth, violEdges))
+			run.Incomplete(fmt.Sprintf("suite %s stopped at depth %d after %d transitions that left real and reference state in disagreement", s.name, depth, violEdges))
 		}
 
 		if lastLevel {
@@ -480,7 +486,7 @@ func doReplay(path string) {
 
 func main() {
 	log.ReplaceGlobals(zap.NewNop(), &log.ZapProperties{}) // exhaustion and kill are logged at Warn/Info
-	debug.SetGCPercent(400)                               // allocation heavy, small live heap
+	debug.SetGCPercent(400)                                // allocation heavy, small live heap
 	initKinds()
 	installRouter()
 	for i, a := range os.Args {
